@@ -656,7 +656,7 @@ class Ctx:
         kinds = {self.var_kind[n] for n in names}
         full = int(timeout_ms or self.timeout_ms)
         if not nl:
-            plan = [("default", full)]
+            plan = [("default", full), ("default2", full)]
         elif kinds <= {"real"}:
             short = min(2500, full)
             plan = [("pnra", short), ("nra", short), ("default", short),
@@ -668,6 +668,10 @@ class Ctx:
                 s = z3.SolverFor("QF_NRA")
             elif tac == "pnra":
                 s = z3.Then("simplify", "purify-arith", "solve-eqs", "qfnra-nlsat").solver()
+            elif tac == "default2":
+                s = z3.Solver()          # second opinion: the older simplex core, other seed
+                s.set("arith.solver", 2)
+                s.set("random_seed", 11)
             else:
                 s = z3.Solver()
             s.set("timeout", tmo)
@@ -699,6 +703,7 @@ class Ctx:
                 self.stats.unsat += 1
                 return "unsat", None
         self.stats.unknown += 1
+        self.notes.append("unknown: %d conjuncts, extra %s" % (len(conj), str(extra[0])[:200] if extra else ""))
         return "unknown", None
 
     def _eval(self, e):
